@@ -644,3 +644,259 @@ Example C02_ex_edit_nonvacuous :
   t [ExDirty.XLine [49;100]%N; ExDirty.XReload ab; ExDirty.XLine [49;100]%N; ExDirty.XEdit ab] = [[98]]%N /\
   q [ExDirty.XLine [49;100]%N; ExDirty.XReload ab; ExDirty.XLine [49;100]%N; ExDirty.XEdit ab] = false.
 Proof. vm_compute. repeat split. Qed.
+
+(* ------------------------------------------------------------------------------------------ *)
+(* THE GUARDS ARE THE C TEXT (coq/TrQuit.v; whitelist tools/c2clite.d/87_quit.list): bufs_modified, ec_quit, ec_edit, ec_buffer, ec_exec,
+   ec_make of /repo/ex.c as CLite terms (coq/GenCFuncs.v), RUN on a memory whose block G_bufs is ANY table bufs[16] (TrBufs.tab_at: 16 * 41
+   cells) with a struct lbuf (TrLbuf.lbuf_rep: 75 cells) behind the lb pointer of every occupied slot (TrQuit.heap_at; TrQuit.sep: the structs
+   are different blocks, none is a reserved global, no log pointer points to a struct or a reserved global).  ex_show, lbuf_save, ec_write,
+   reg_put and everything behind the guards are NOT translated: every statement is about CLiteExt.callx for EVERY oracle `ext`, with
+   hypotheses about the oracle's answers on the calls that are reached -- so "returns 1 with this memory" also says that no other
+   untranslated function was called. *)
+From NV Require CLite CLiteProps GenCFuncs CLiteTac CLiteExt TrLbufBase TrLbuf TrBufs TrBufsLbuf TrQuit BufsDefs.
+Section C02_translated_guards.
+Import CLite CLiteProps GenCFuncs CLiteTac CLiteExt TrLbufBase TrLbuf TrBufs TrQuit.
+Local Open Scope Z_scope.
+
+(* bufs_modified(idx, msg), autowrite off: an empty slot answers 0 and nothing happens; an occupied one gets its command counter bumped
+   (UndoDefs.lbuf_modified: exactly cell useq of its struct) and answers the model's flag; only on a buffer reported modified the message
+   goes to ex_show *)
+Theorem C02_tr_bufs_modified : forall ext m t i h msg B d fuel, B <= 2147483647 -> tab_at m t -> tab_ok t -> (i < 16)%nat ->
+  slot_heap B m (nths t i) h -> cell_at m G_xaw 0 -> ptr_val msg -> (forall bl blk lb, h = Some (bl, blk, lb) -> bl <> G_xaw) ->
+  match h with
+  | None => callx ext cprog fuel (S (S (S d))) F_bufs_modified [VInt (Z.of_nat i); msg] m = Ok (VInt 0, m)
+  | Some (bl, blk, lb) =>
+      if snd (lbuf_modified lb)
+      then forall m2, show_call ext msg (bump_mem m bl blk lb) m2 ->
+           callx ext cprog fuel (S (S (S d))) F_bufs_modified [VInt (Z.of_nat i); msg] m = Ok (VInt 1, m2)
+      else callx ext cprog fuel (S (S (S d))) F_bufs_modified [VInt (Z.of_nat i); msg] m = Ok (VInt 0, bump_mem m bl blk lb)
+  end.
+Proof. exact tr_bufs_modified. Qed.
+Print Assumptions C02_tr_bufs_modified.
+
+(* the memory after the bump represents the model's next state (fst (lbuf_modified lb) = bump lb) *)
+Theorem C02_tr_bufs_modified_state : forall B m cs bl blk (lb : lbuf), B <= 2147483647 -> slot_heap B m cs (Some (bl, blk, lb)) ->
+  slot_heap (B + 1) (bump_mem m bl blk lb) cs (Some (bl, bumped blk lb, fst (lbuf_modified lb))).
+Proof. exact slot_heap_bump. Qed.
+Print Assumptions C02_tr_bufs_modified_state.
+
+(* autowrite on (xaw != 0), a buffer reported modified: with a non-empty path the buffer is handed to lbuf_save(b->lb, 0, -1, b->path, 0,
+   b->mtime) -- the oracle -- and bufs_modified answers whether that returned an error message; with the path "" as with autowrite off *)
+Theorem C02_tr_bufs_modified_autowrite : forall ext m t i bl blk (lb : lbuf) msg a pb p m2 d fuel, tab_at m t -> tab_ok t -> (i < 16)%nat ->
+  cs_lb (nths t i) = VPtr bl 0 -> lbuf_rep m bl blk lb -> lbuf_ints lb -> useq lb < 2147483647 ->
+  snd (lbuf_modified lb) = true -> bl <> G_xaw -> bl <> G_bufs -> cell_at m G_xaw a -> int_ok a -> a <> 0 -> ptr_val msg ->
+  cs_path (nths t i) = VPtr pb 0 -> str_at m pb p -> Bytes.nonul p -> pb <> bl ->
+  let m1 := bump_mem m bl blk lb in
+  match p with
+  | [] => show_call ext msg m1 m2 ->
+          callx ext cprog fuel (S (S (S d))) F_bufs_modified [VInt (Z.of_nat i); msg] m = Ok (VInt 1, m2)
+  | _ :: _ => forall r, ptr_val r ->
+          ext X_lbuf_save [VPtr bl 0; VInt 0; VInt (-1); VPtr pb 0; VInt 0; VInt (wrap I64 (cs_mtime (nths t i)))] m1 = Ok (r, m2) ->
+          callx ext cprog fuel (S (S (S d))) F_bufs_modified [VInt (Z.of_nat i); msg] m = Ok (VInt (b2z (negb (is_null r))), m2)
+  end.
+Proof. exact tr_bufs_modified_aw. Qed.
+Print Assumptions C02_tr_bufs_modified_autowrite.
+
+(* ec_quit(loc, cmd, arg, txt) for q / wq / x (no `a`, no `!` in cmd), for EVERY table, heap and oracle.  The write part of wq / x is the
+   oracle for ec_write("", cmd, arg, NULL) (write_part: it answered 0 and left mw; for q nothing happens, mw = m).  Then ALL 16 slots
+   are visited in order from slot 0; every occupied slot's buffer is asked up to the first one reported modified (TrQuit.cq: the memory with
+   those counters bumped, and that slot).  None: xquit = 1 is stored, 0 returned.  Slot j: "buffer modified" goes to ex_show, bufs_switch(j)
+   runs, 0 is returned and the memory is exactly what bufs_switch left: xquit is NOT stored. *)
+Theorem C02_tr_ec_quit : forall ext m mw t hp cb cmd loc arg txt q0 B d fuel, B <= 2147483647 ->
+  str_at m cb cmd -> Bytes.nonul cmd -> ptr_val arg -> write_part ext cb cmd arg m 0 mw ->
+  tab_at mw t -> tab_ok t -> heap_at B mw t hp -> sep [G_bufs; G_xaw; G_xquit; cb] hp ->
+  cell_at mw G_xaw 0 -> cell_at mw G_xquit q0 -> str_at mw cb cmd ->
+  find_byte 97 cmd = None -> find_byte 33 cmd = None -> (16 < fuel)%nat ->
+  match cq hp 0 mw with
+  | (m1, None) => callx ext cprog fuel (S (S (S (S d)))) F_ec_quit [loc; VPtr cb 0; arg; txt] m = Ok (VInt 0, upd m1 G_xquit [VInt 1])
+  | (m1, Some j) => forall u1 m2 u2 m', ext X_ex_show [VPtr G_lit_627566666572206d6f646966696564_15 0] m1 = Ok (u1, m2) ->
+      callx ext cprog fuel (S (S (S d))) F_bufs_switch [VInt (Z.of_nat j)] m2 = Ok (u2, m') ->
+      callx ext cprog fuel (S (S (S (S d)))) F_ec_quit [loc; VPtr cb 0; arg; txt] m = Ok (VInt 0, m')
+  end.
+Proof. exact tr_ec_quit_scan. Qed.
+Print Assumptions C02_tr_ec_quit.
+
+(* ... and that scan IS DirtyDefs.ec_quit_tab without `!` on the model table behind the heap (heap_tab: the same slots empty, the occupied ones
+   carry the state their struct represents; the ghost disk is free): the same verdict, the same slot, and after the bufs_switch of the
+   refusing case -- slot 0's buffer bumped once more, slot j moved to the front: TrQuit.hbump0 / BufsDefs.switch -- the same table *)
+Theorem C02_tr_ec_quit_is_model : forall hp (T : table), heap_tab hp T ->
+  match cq_idx hp with
+  | None => ec_quit_tab false T = (tq T, true) /\ heap_tab (cq_hp hp) (tq T)
+  | Some j => snd (ec_quit_tab false T) = false /\ BufsDefs.first_idx tflag T = Some j /\
+              heap_tab (BufsDefs.switch (hbump0 (cq_hp hp)) j) (fst (ec_quit_tab false T))
+  end.
+Proof. exact cq_is_quit_tab. Qed.
+Print Assumptions C02_tr_ec_quit_is_model.
+Theorem C02_tr_scan_slot : forall l i m, snd (cq l i m) = option_map (fun n => (i + n)%nat) (cq_idx l).
+Proof. exact cq_snd. Qed.
+
+(* the refusing quit end to end (TrBufs.tr_bufs_switch / TrBufsLbuf.tr_bufs_switch_bump for the bufs_switch call): with an ex_show that
+   leaves this memory alone and a reg_put that answers, ec_quit returns 0 and at its last call -- reg_put('%', path of the new current buffer,
+   0) from bufs_load -- the memory m5 holds the table rotated to the first modified slot j (BufsDefs.switch of the table with the cursor saved
+   into slot 0), every struct represents the entry of switch (hbump0 (cq_hp hp)) j -- by C02_tr_ec_quit_is_model the table of
+   DirtyDefs.ec_quit_tab -- and xquit is what it was *)
+Theorem C02_tr_ec_quit_rotates : forall ext m mw t hp cb cmd loc arg txt q0 B r o tp l td m1 j d fuel,
+  B <= 2147483646 -> str_at m cb cmd -> Bytes.nonul cmd -> ptr_val arg -> write_part ext cb cmd arg m 0 mw ->
+  tab_at mw t -> tab_ok t -> heap_at B mw t hp -> sep (RES cb) hp ->
+  cell_at mw G_xaw 0 -> cell_at mw G_xquit q0 -> str_at mw cb cmd ->
+  globs_at mw r o tp l td -> int_ok r -> int_ok o -> int_ok tp -> int_ok l -> int_ok td ->
+  Forall slot_ints t -> Forall (fun s => ptr_val (cs_path s)) t ->
+  find_byte 97 cmd = None -> find_byte 33 cmd = None -> (16 < fuel)%nat ->
+  (forall mm, ext X_ex_show [VPtr G_lit_627566666572206d6f646966696564_15 0] mm = Ok (VUndef, mm)) ->
+  (forall a mm, exists u mm', ext X_reg_put [VInt 37; a; VInt 0] mm = Ok (u, mm')) ->
+  cq hp 0 mw = (m1, Some j) ->
+  let t2 := BufsDefs.switch (save0 t r o tp l td) j in
+  let hp2 := BufsDefs.switch (hbump0 (cq_hp hp)) j in
+  exists m5 u m',
+    callx ext cprog fuel (S (S (S (S d)))) F_ec_quit [loc; VPtr cb 0; arg; txt] m = Ok (VInt 0, m') /\
+    ext X_reg_put [VInt 37; path_arg (cs_path (nths t2 0)); VInt 0] m5 = Ok (u, m') /\
+    tab_at m5 t2 /\ heap_at (B + 2) m5 t2 hp2 /\ cell_at m5 G_xquit q0.
+Proof. exact tr_ec_quit_rotates. Qed.
+Print Assumptions C02_tr_ec_quit_rotates.
+
+(* with `!` (q!, wq!, x!; no `a`): nothing is asked, xquit = 1 is stored whatever the buffers hold, nothing else changes *)
+Theorem C02_tr_ec_quit_force : forall ext m mw t cb cmd loc arg txt q0 k d fuel, str_at m cb cmd -> Bytes.nonul cmd -> ptr_val arg ->
+  write_part ext cb cmd arg m 0 mw ->
+  tab_at mw t -> tab_ok t -> lbs_ok t -> cell_at mw G_xquit q0 -> str_at mw cb cmd ->
+  find_byte 97 cmd = None -> find_byte 33 cmd = Some k -> (16 < fuel)%nat ->
+  callx ext cprog fuel (S (S (S (S d)))) F_ec_quit [loc; VPtr cb 0; arg; txt] m = Ok (VInt 0, upd mw G_xquit [VInt 1]).
+Proof. exact tr_ec_quit_force. Qed.
+Print Assumptions C02_tr_ec_quit_force.
+
+(* wq / x / xa whose write part reports failure: 1 is returned, the loop is not started, xquit is not stored *)
+Theorem C02_tr_ec_quit_write_fails : forall ext m cb cmd loc arg txt r mw d fuel, str_at m cb cmd -> Bytes.nonul cmd -> ptr_val arg ->
+  is_wx cmd = true -> ext X_ec_write [VPtr G_lit__0 0; VPtr cb 0; arg; VInt 0] m = Ok (VInt r, mw) -> r <> 0 ->
+  callx ext cprog fuel (S (S (S (S d)))) F_ec_quit [loc; VPtr cb 0; arg; txt] m = Ok (VInt 1, mw).
+Proof. exact tr_ec_quit_write_fails. Qed.
+Print Assumptions C02_tr_ec_quit_write_fails.
+
+(* THE GUARD OF :e :b :! :make.  The call sites, as facts about the translated text (by computation): the body of ec_exec / ec_make / ec_edit
+   is its local arrays, then the guard statement, then the rest; ec_buffer calls bufs_switch exactly once, inside the guarded statement *)
+Theorem C02_tr_guard_sites :
+  fn_body cf_ec_exec = SSeq (SSeq (SExpr (ESetLocal 4 (EBuiltin BMalloc [EConst 1]))) (SExpr (ESetLocal 5 (EBuiltin BMalloc [EConst 1]))))
+                            (SSeq guard_xwa ec_exec_rest) /\
+  fn_body cf_ec_make = SSeq (SExpr (ESetLocal 4 (EBuiltin BMalloc [EConst 512]))) (SSeq guard_xwa ec_make_rest) /\
+  fn_body cf_ec_edit = SSeq (SExpr (ESetLocal 4 (EBuiltin BMalloc [EConst 512])))
+                            (SSeq (SExpr (ESetLocal 5 (EBuiltin BMalloc [EConst 128]))) (SSeq guard_edit ec_edit_rest)) /\
+  ec_buffer_sw = guard_buffer 10 /\ calls_s F_bufs_switch (fn_body cf_ec_buffer) = 1%nat /\ calls_s F_bufs_switch ec_buffer_sw = 1%nat.
+Proof. exact (conj ec_exec_shape (conj ec_make_shape (conj ec_edit_shape ec_buffer_shape))). Qed.
+Print Assumptions C02_tr_guard_sites.
+
+(* what bufs_modified(0, "buffer modified") answers (v) and leaves (m'), by the state of slot 0 -- DirtyDefs.guard_current without `!` *)
+(* ec_exec / ec_make (writeany off): v <> 0 -- a buffer reported modified -- returns 1 at once with the memory ex_show left: neither
+   ex_pathexpand nor cmd_exec / cmd_pipe / lbuf_edit is reached; the rest of the function runs only on v = 0 *)
+Theorem C02_tr_guard_exec : forall ext m t h loc cmd arg txt v m' B d fuel, B <= 2147483647 -> tab_at m t -> tab_ok t ->
+  slot_heap B m (nths t 0) h -> cell_at m G_xaw 0 -> cell_at m G_xwa 0 -> (forall bl blk lb, h = Some (bl, blk, lb) -> bl <> G_xaw) ->
+  let m0 := (m ++ [repeat VUndef 1]) ++ [repeat VUndef 1] in
+  bm_spec ext h m0 v m' ->
+  callx ext cprog fuel (S (S (S (S d)))) F_ec_exec [loc; cmd; arg; txt] m =
+  if v =? 0 then ret_of (exec (callx ext cprog fuel (S (S (S d)))) fuel ec_exec_rest
+                           (mkst [loc; cmd; arg; txt; VPtr (length m) 0; VPtr (S (length m)) 0; VUndef; VUndef; VUndef] m'))
+  else Ok (VInt 1, m').
+Proof. exact tr_ec_exec_head. Qed.
+Print Assumptions C02_tr_guard_exec.
+Theorem C02_tr_guard_make : forall ext m t h loc cmd arg txt v m' B d fuel, B <= 2147483647 -> tab_at m t -> tab_ok t ->
+  slot_heap B m (nths t 0) h -> cell_at m G_xaw 0 -> cell_at m G_xwa 0 -> (forall bl blk lb, h = Some (bl, blk, lb) -> bl <> G_xaw) ->
+  let m0 := m ++ [repeat VUndef 512] in
+  bm_spec ext h m0 v m' ->
+  callx ext cprog fuel (S (S (S (S d)))) F_ec_make [loc; cmd; arg; txt] m =
+  if v =? 0 then ret_of (exec (callx ext cprog fuel (S (S (S d)))) fuel ec_make_rest (mkst [loc; cmd; arg; txt; VPtr (length m) 0; VUndef] m'))
+  else Ok (VInt 1, m').
+Proof. exact tr_ec_make_head. Qed.
+Print Assumptions C02_tr_guard_make.
+(* ec_edit without `!`: the guard comes FIRST, before ex_plus / ex_pathexpand look at the argument -- for every argument, the empty one
+   included (the re-read of ":e") *)
+Theorem C02_tr_guard_edit : forall ext m t h loc cb cmd arg txt v m' B d fuel, B <= 2147483647 -> tab_at m t -> tab_ok t ->
+  slot_heap B m (nths t 0) h -> cell_at m G_xaw 0 -> cell_at m G_xwa 0 -> (forall bl blk lb, h = Some (bl, blk, lb) -> bl <> G_xaw) ->
+  str_at m cb cmd -> Bytes.nonul cmd -> find_byte 33 cmd = None ->
+  let m0 := (m ++ [repeat VUndef 512]) ++ [repeat VUndef 128] in
+  bm_spec ext h m0 v m' ->
+  callx ext cprog fuel (S (S (S (S d)))) F_ec_edit [loc; VPtr cb 0; arg; txt] m =
+  if v =? 0 then ret_of (exec (callx ext cprog fuel (S (S (S d)))) fuel ec_edit_rest
+                           (mkst [loc; VPtr cb 0; arg; txt; VPtr (length m) 0; VPtr (S (length m)) 0; VUndef; VUndef; VUndef] m'))
+  else Ok (VInt 1, m').
+Proof. exact tr_ec_edit_head. Qed.
+Print Assumptions C02_tr_guard_edit.
+Theorem C02_tr_guard_edit_bang : forall ext m loc cb cmd arg txt k d fuel, str_at m cb cmd -> Bytes.nonul cmd -> find_byte 33 cmd = Some k ->
+  let m0 := (m ++ [repeat VUndef 512]) ++ [repeat VUndef 128] in
+  callx ext cprog fuel (S (S (S (S d)))) F_ec_edit [loc; VPtr cb 0; arg; txt] m =
+  ret_of (exec (callx ext cprog fuel (S (S (S d)))) fuel ec_edit_rest
+            (mkst [loc; VPtr cb 0; arg; txt; VPtr (length m) 0; VPtr (S (length m)) 0; VUndef; VUndef; VUndef] m0)).
+Proof. exact tr_ec_edit_bang. Qed.
+Print Assumptions C02_tr_guard_edit_bang.
+(* ec_buffer: the statement that holds its only bufs_switch call returns 1 before that call on a buffer reported modified *)
+Theorem C02_tr_guard_buffer : forall ext t h m v m' cb cmd l0 ltl B d fuel fuel', tab_ok t -> B <= 2147483647 ->
+  tab_at m t -> slot_heap B m (nths t 0) h -> cell_at m G_xaw 0 -> cell_at m G_xwa 0 ->
+  (forall bl blk lb, h = Some (bl, blk, lb) -> bl <> G_xaw) -> bm_spec ext h m v m' ->
+  str_at m cb cmd -> Bytes.nonul cmd -> find_byte 33 cmd = None ->
+  exec (callx ext cprog fuel (S (S (S d)))) fuel' ec_buffer_sw (mkst (l0 :: VPtr cb 0 :: ltl) m)
+  = if v =? 0 then exec (callx ext cprog fuel (S (S (S d)))) fuel' (SExpr (ECall F_bufs_switch [ELocal 10])) (mkst (l0 :: VPtr cb 0 :: ltl) m')
+    else OReturn (VInt 1) (mkst (l0 :: VPtr cb 0 :: ltl) m').
+Proof. exact tr_ec_buffer_guard. Qed.
+Print Assumptions C02_tr_guard_buffer.
+
+(* not vacuous, and the translated ec_quit RUNS.  A table with three open buffers a, b, c (slots 0, 1, 2; 13 empty slots), their structs in the
+   blocks B, B+1, B+2 behind the program's globals (counter 5, empty log, saved at sequence 2 = clean; the third one in `mem_of 1` saved at
+   1 = modified), the command string "q" in block B+6; the oracle ext0 answers ex_show and reg_put by leaving the memory alone and nothing else.
+   The hypotheses of the theorems above hold of it (heap_at, sep, heap_tab with DirtyDefs' table); the model says: refuse, slot 2.
+   RUN with the third buffer modified: ec_quit returns 0, xquit stays 0, the table is rotated -- the lb pointers of slots 0 1 2 are now those of
+   c a b --, the counters are 7 (a: asked, then left by bufs_switch), 6, 6, one block (bufs_switch's tmp) was allocated.
+   RUN with all three clean: 0, xquit = 1, the table as it was, every counter 6.  RUN of q! on the modified table: xquit = 1, no counter moves. *)
+Example C02_tr_quit_nonvacuous :
+  let B0 := length cglobals in
+  let ext0 : nat -> list val -> mem -> res (val * mem) :=
+    fun f _ m => if Nat.eqb f X_ex_show || Nat.eqb f X_reg_put then Ok (VUndef, m) else Err EShape in
+  let sblk (uz : Z) : block := repeat (VInt (-1)) 32%nat ++ repeat (VInt 0) 32%nat ++
+    [VInt 0; VInt 0; VInt 0; VInt 0; VInt 5; VInt 0; VInt 0; VInt 0; VInt 0; VInt uz; VInt 2] in
+  let slb (uz : Z) : lbuf := {| ln := []; hist := []; hist_u := 0; hist_sz := 0; useq := 5; useq_zero := uz; useq_last := 2 |} in
+  let cslot_k (k : nat) : cslot :=
+    mkcs (repeat (VInt 0) 32%nat) (VPtr (B0 + 3 + k)%nat 0) (VPtr (B0 + k)%nat 0) (Z.of_nat k) 0 0 0 (Z.of_nat k + 1) 1 0 in
+  let T0 : list cslot := [cslot_k 0%nat; cslot_k 1%nat; cslot_k 2%nat] ++ repeat cs_zero 13%nat in
+  let mem_of (uz2 : Z) (c : list Z) : mem := upd cglobals G_bufs (tab_cells T0) ++
+    [sblk 2; sblk 2; sblk uz2; cstr_block [97]; cstr_block [98]; cstr_block [99]; cstr_block c] in
+  let hp0 (uz2 : Z) : list (option hent) :=
+    [Some (B0, sblk 2, slb 2); Some (S B0, sblk 2, slb 2); Some (S (S B0), sblk uz2, slb uz2)] ++ repeat None 13%nat in
+  let Tm (uz2 : Z) : table := [Some {| lb := slb 2; disk := [] |}; Some {| lb := slb 2; disk := [] |}; Some {| lb := slb uz2; disk := [[120; 10]%N] |}]
+                              ++ repeat None 13%nat in
+  let run uz2 c := callx ext0 cprog 20%nat 6%nat F_ec_quit [VInt 0; VPtr (B0 + 6)%nat 0; VPtr G_lit__0 0; VInt 0] (mem_of uz2 c) in
+  let cell (m : mem) (b i : nat) := match nth_error m b with Some blk => nth_error blk i | None => None end in
+  let lbs (m : mem) := map (fun k => cell m G_bufs (41 * k + 33)%nat) [0; 1; 2; 3]%nat in
+  let useqs (m : mem) := map (fun k => cell m (B0 + k)%nat L_useq) [0; 1; 2]%nat in
+  tab_at (mem_of 1 [113]) T0 /\ tab_ok T0 /\ heap_at 2147483646 (mem_of 1 [113]) T0 (hp0 1) /\ sep (RES (B0 + 6)%nat) (hp0 1) /\
+  heap_tab (hp0 1) (Tm 1) /\ snd (ec_quit_tab false (Tm 1)) = false /\ snd (cq (hp0 1) 0%nat (mem_of 1 [113])) = Some 2%nat /\
+  snd (ec_quit_tab false (Tm 2)) = true /\ snd (cq (hp0 2) 0%nat (mem_of 2 [113])) = None /\
+  match run 1 [113] with
+  | Ok (v, m') => v = VInt 0 /\ nth_error m' G_xquit = Some [VInt 0] /\
+                  lbs m' = [Some (VPtr (B0 + 2)%nat 0); Some (VPtr B0 0); Some (VPtr (B0 + 1)%nat 0); Some (VInt 0)] /\
+                  useqs m' = [Some (VInt 7); Some (VInt 6); Some (VInt 6)] /\ length m' = S (length (mem_of 1 [113]))
+  | Err _ => False
+  end /\
+  match run 2 [113] with
+  | Ok (v, m') => v = VInt 0 /\ nth_error m' G_xquit = Some [VInt 1] /\
+                  lbs m' = [Some (VPtr B0 0); Some (VPtr (B0 + 1)%nat 0); Some (VPtr (B0 + 2)%nat 0); Some (VInt 0)] /\
+                  useqs m' = [Some (VInt 6); Some (VInt 6); Some (VInt 6)] /\ length m' = length (mem_of 2 [113])
+  | Err _ => False
+  end /\
+  run 1 [113; 33] = Ok (VInt 0, upd (mem_of 1 [113; 33]) G_xquit [VInt 1]).
+Proof.
+  cbv zeta. set (B0 := length cglobals). vm_compute in B0. subst B0.
+  split; [reflexivity|]. split; [split; [reflexivity|repeat constructor]|].
+  split.
+  { unfold heap_at.
+    assert (Hs : forall m cs bl uz, cs_lb cs = VPtr bl 0 ->
+              nth_error m bl = Some (repeat (VInt (-1)) 32%nat ++ repeat (VInt 0) 32%nat ++ [VInt 0; VInt 0; VInt 0; VInt 0; VInt 5; VInt 0; VInt 0; VInt 0; VInt 0; VInt uz; VInt 2]) ->
+              -2147483648 <= uz <= 2147483647 ->
+              slot_heap 2147483646 m cs (Some (bl, repeat (VInt (-1)) 32%nat ++ repeat (VInt 0) 32%nat ++ [VInt 0; VInt 0; VInt 0; VInt 0; VInt 5; VInt 0; VInt 0; VInt 0; VInt 0; VInt uz; VInt 2],
+                                                  {| ln := []; hist := []; hist_u := 0; hist_sz := 0; useq := 5; useq_zero := uz; useq_last := 2 |}))).
+    { intros m cs bl uz Hc Hb Hu. split; [exact Hc|]. split; [constructor; try reflexivity; [exact Hb|intro H; exfalso; apply H; reflexivity]|].
+      split; [unfold lbuf_ints, i32; cbn; repeat split; try lia; constructor|cbn; lia]. }
+    repeat (apply Forall2_cons; [first [apply Hs; [reflexivity|reflexivity|lia] | reflexivity]|]). apply Forall2_nil. }
+  split.
+  { split; [repeat constructor; cbn; intuition discriminate|]. split.
+    - intros b Hb. vm_compute in Hb. vm_compute. intuition (subst; discriminate).
+    - intros bl blk lb0 bh Hin Hp. exfalso. cbn [app repeat In] in Hin.
+      repeat (destruct Hin as [E|Hin]; [first [discriminate E | injection E as <- <- <-; vm_compute in Hp; discriminate Hp]|]). exact Hin. }
+  split; [repeat (apply Forall2_cons; [cbn; try reflexivity; exact I|]); apply Forall2_nil|].
+  vm_compute. repeat split.
+Qed.
+End C02_translated_guards.
